@@ -352,7 +352,9 @@ impl Value {
         match self {
             Self::Null => "null".to_string(),
             Self::Int(v) => format!("i:{v}"),
-            Self::Float(v) => format!("f:{}", v.to_bits()),
+            // -0.0 == 0.0 under the row-level predicate, so both must share one index key;
+            // otherwise an equality lookup through the hash index misses the other zero.
+            Self::Float(v) => format!("f:{}", if *v == 0.0 { 0 } else { v.to_bits() }),
             Self::String(v) => {
                 let mut hasher = std::collections::hash_map::DefaultHasher::new();
                 v.hash(&mut hasher);
